@@ -411,6 +411,10 @@ class BaseParser:
     def parse_addition(self, key: str, value, context: RuntimeContext):
         if key in self.exclude_vars:
             # excluded vars cannot be carry in addition even if allowed
+            if context.options.addition is False:
+                # ... and where unknown keys are refused (addition=False, implied by no_data_loss)
+                # a key that is given but can not be taken must not be dropped silently either
+                context.handle_error(exc.ExceedError(item=key, value=value))
             return unprovided
         if context.options.addition is False:
             context.handle_error(exc.ExceedError(item=key, value=value))
